@@ -92,6 +92,7 @@ func c04Run(hseed int64, relaxed bool, v c04Variant) (*c04Result, error) {
 	w.prof.MaxDepth = 3
 	w.prof.Composite = true
 	w.prof.PSome = 15
+	w.prof.LongTypes = hseed%3 == 0
 	owners := []atree.Address{addrOf(1, 0), addrOf(2, 0), addrOf(1, 0xF0), addrOf(0, 0x01)}
 	// slab indexes start just below multi-byte boundaries so that ordering by (owner, index) is exercised
 	w.led.index[owners[0]] = 250
